@@ -8,12 +8,13 @@ from concurrent.futures import ThreadPoolExecutor
 V = "/verif"
 RELATED = {"C08": ["C01", "C07", "C13"], "C04": [], "C01": ["C07", "C08", "C06", "C12", "C13", "C19"], "C03": ["C11"], "C05": ["C06", "C07"], "C07": ["C01", "C16", "C08"], "C11": ["C10", "C03"], "C19": ["C01", "C06", "C10", "C12"], "C02": ["C12", "C08", "C09", "C01"], "C06": ["C10", "C13", "C16", "C01", "C14"], "C13": ["C01"], "C12": ["C02", "C01", "C13", "C19"], "C10": ["C06", "C01", "C13"],
            "C09": ["C02"], "C14": ["C15", "C16"], "C15": ["C14"], "C16": ["C13", "C17"], "C17": ["C16"], "C18": []}
+SD = os.environ.get("SEED_DIR", "seeded")      # SEED_DIR=harmless: the behaviour-preserving refactorings (no check may print VIOLATION on them)
 man = json.load(open(f"{V}/MANIFEST.json"))
 claimed = [c["property_id"] for c in man["checks"]]
 
 
 def one(name):
-    d = f"{V}/seeded/{name}"
+    d = f"{V}/{SD}/{name}"
     pid = name.split("-")[0]
     tmp = tempfile.mkdtemp(prefix="pyvc_seed_", dir="/var/tmp")
     res = {}
@@ -36,8 +37,8 @@ def one(name):
     return name, res
 
 
-names = [a for a in sys.argv[1:] if not a.startswith("--")] or sorted(os.listdir(f"{V}/seeded"))
-names = [n for n in names if os.path.isdir(f"{V}/seeded/{n}")]
+names = [a for a in sys.argv[1:] if not a.startswith("--")] or sorted(os.listdir(f"{V}/{SD}"))
+names = [n for n in names if os.path.isdir(f"{V}/{SD}/{n}")]
 with ThreadPoolExecutor(5) as ex:
     for name, res in ex.map(one, names):
         pid = name.split("-")[0]
